@@ -40,6 +40,15 @@ def run(ctx):
         pool = rng.sample(CELLS, rng.choice([2, 3, 4]))
         A = gen.table(rng, hdr, default_pool=pool, maxn=6, ragged=0.0)
         B = gen.table(rng, hdr, default_pool=pool, maxn=6, ragged=0.0)
+        # a data row that repeats the header (e.g. a concatenated export): it is data, and only data
+        u = rng.random()
+        if u < 0.12:
+            A.insert(rng.randint(1, len(A)), list(hdr))
+        elif u < 0.18:
+            B.insert(rng.randint(1, len(B)), list(hdr))
+        elif u < 0.22:
+            A.insert(rng.randint(1, len(A)), list(hdr))
+            B.insert(rng.randint(1, len(B)), list(hdr))
         bs = rng.choice([None, None, 1, 2, 3])
         strict = rng.random() < 0.4
         ca = Counter(tuple(r) for r in A[1:])
